@@ -34,6 +34,10 @@ pub struct FileMeta {
     /// owner of the pre-existing destination (indices into IDS)
     #[serde(default)]
     pub prior_owner: Option<(u8, u8)>,
+    /// the pre-existing destination already has exactly the source's mode, special bits included (second run of
+    /// the same copy); only used when permissions are copied
+    #[serde(default)]
+    pub prior_same_mode: bool,
 }
 
 #[derive(Clone, Debug, Serialize, Deserialize)]
@@ -84,8 +88,9 @@ fn file_meta() -> BoxedStrategy<FileMeta> {
         prop::option::weighted(0.4, (0u16..0o1000, 0..MTIMES.len() as u8, 0u32..10000)),
         prop::option::weighted(0.5, (0..IDS.len() as u8, 0..IDS.len() as u8)),
         prop::bool::weighted(0.3),
+        prop::bool::weighted(0.3),
     )
-        .prop_map(|(len, mode, mtime, xattrs, uid, gid, prior, prior_owner, same_id)| FileMeta { len, mode, mtime, xattrs, uid, gid: if same_id { uid } else { gid }, prior, prior_owner })
+        .prop_map(|(len, mode, mtime, xattrs, uid, gid, prior, prior_owner, same_id, prior_same_mode)| FileMeta { len, mode, mtime, xattrs, uid, gid: if same_id { uid } else { gid }, prior, prior_owner, prior_same_mode })
         .boxed()
 }
 
@@ -156,7 +161,7 @@ pub fn ents_for(c: &Case) -> Vec<Ent> {
         ents.push(e);
         if let Some((pm, pt, pl)) = f.prior {
             let mut p = Ent::file(format!("d/s/f{}", i).as_bytes(), Content::data(pl as u64, 30 + i as u8));
-            p.mode = Some(pm as u32);
+            p.mode = Some(if f.prior_same_mode && !c.no_perms { f.mode as u32 } else { pm as u32 });
             p.mtime = Some(MTIMES[pt as usize % MTIMES.len()]);
             if let Some((pu, pg)) = f.prior_owner {
                 p.owner = Some((IDS[pu as usize % IDS.len()], IDS[pg as usize % IDS.len()]));
@@ -265,6 +270,9 @@ pub fn judge(c: &Case, rec: &mut Rec) -> Verdict {
         };
         let special = f.mode & 0o7000 != 0;
         let multi = f.len as u64 > bs;
+        if f.prior.is_some() && f.prior_same_mode && !c.no_perms {
+            rec.class(format!("prior-has-the-source-mode|special={}|ownership={}", f.mode & 0o7000 != 0, c.ownership));
+        }
         if f.xattrs.iter().any(|(n, _)| XNAMES[*n as usize % XNAMES.len()].contains("\\x")) {
             rec.class("xattr-name=non-utf8".to_string());
         }
@@ -338,7 +346,7 @@ impl Check for C10 {
         "C10"
     }
     fn rule(&self) -> String {
-        "proptest-generated regular files with mode uniform over 0..07777 (forced coverage of 04000/02000/01000, 0, 07777), mtimes from 1970+1ns to 2100 with sub-second parts, 0-3 user.* xattrs (empty, text, binary with NULs, 3000 bytes; names ASCII, UTF-8 and not valid UTF-8), uid:gid in {0,1,1000,65534}, optional pre-existing destination with its own mode (0..0777) and mtime; flags subsets of --no-perms/--no-timestamps/--ownership; umask 0/022/077; both drivers, workers 0..16, block sizes making 1..49 blocks; a tenth of the cases under the supervisor with one starved worker; a quarter as a single file-to-file copy; option noise (--fsync --backup=numbered --reflink=never -v). Oracle on exit 0: mode&07777 equal, mtime equal to the nanosecond, user xattrs equal, with --ownership uid/gid equal and mode still equal; --no-perms: previous mode or 0666&~umask; --no-timestamps: mtime between two marker files touched around the run on the same filesystem. Non-trivial: exit 0 and (special bit or sub-second mtime or xattr or ownership or multi-block); distinct by case hash.".into()
+        "proptest-generated regular files with mode uniform over 0..07777 (forced coverage of 04000/02000/01000, 0, 07777), mtimes from 1970+1ns to 2100 with sub-second parts, 0-3 user.* xattrs (empty, text, binary with NULs, 3000 bytes; names ASCII, UTF-8 and not valid UTF-8), uid:gid in {0,1,1000,65534}, optional pre-existing destination with its own mode (0..0777, or exactly the source's mode with its special bits, as after an earlier copy), owner and mtime; flags subsets of --no-perms/--no-timestamps/--ownership; umask 0/022/077; both drivers, workers 0..16, block sizes making 1..49 blocks; a tenth of the cases under the supervisor with one starved worker; a quarter as a single file-to-file copy; option noise (--fsync --backup=numbered --reflink=never -v). Oracle on exit 0: mode&07777 equal, mtime equal to the nanosecond, user xattrs equal, with --ownership uid/gid equal and mode still equal; --no-perms: previous mode or 0666&~umask; --no-timestamps: mtime between two marker files touched around the run on the same filesystem. Non-trivial: exit 0 and (special bit or sub-second mtime or xattr or ownership or multi-block); distinct by case hash.".into()
     }
     fn assumptions(&self) -> Vec<String> {
         vec!["runs as root with CAP_CHOWN/CAP_FSETID (the privileged branch the property names); pre-existing destination modes limited to 0..0777".into()]
@@ -366,6 +374,6 @@ impl Check for C10 {
         }
     }
     fn required_classes(&self, _tier: Tier) -> Vec<String> {
-        ["special4000", "special2000", "special1000", "mode0", "|xattr|", "|overwrite|", "multiblock", "starved", "|P", "T", "O|", "umask0|", "umask77|", "single-file", "extra-opts", "setgid-destdir", "prior-owner", "xattr-name=non-utf8"].iter().map(|s| s.to_string()).collect()
+        ["special4000", "special2000", "special1000", "mode0", "|xattr|", "|overwrite|", "multiblock", "starved", "|P", "T", "O|", "umask0|", "umask77|", "single-file", "extra-opts", "setgid-destdir", "prior-owner", "xattr-name=non-utf8", "prior-has-the-source-mode|special=true|ownership=true"].iter().map(|s| s.to_string()).collect()
     }
 }
